@@ -206,7 +206,8 @@ TagTok(n, at, g) == [t |-> "open", n |-> n, g |-> g, attrs |-> at]
 
 \* Attributes: an attribute list is a sequence of records
 \*   [a |-> "const", n, v]  [a |-> "boolc", n]  [a |-> "boole", n, c]  [a |-> "expr", n, e]
-\*   [a |-> "spread", m]    [a |-> "cond", c, then, else]   (then/else: lists of const/boolc/expr attributes)
+\*   [a |-> "spread", m]    [a |-> "cond", c, then, else]   (then/else: lists of const/boolc/expr/class attributes)
+\*   [a |-> "class", e]     class={ expr } with a plain string class name (id K1...)
 RECURSIVE DenAttrs(_, _)
 DenAttrs(at, env) ==
     IF at = <<>> THEN [pairs |-> <<>>, evs |-> <<>>]
@@ -217,6 +218,7 @@ DenAttrs(at, env) ==
                       [] a.a = "boole"  -> [pairs |-> IF env.c[a.c] THEN << [n |-> a.n, v |-> ""] >> ELSE <<>>,
                                             evs |-> << a.c >>]
                       [] a.a = "expr"   -> [pairs |-> << [n |-> a.n, v |-> a.e] >>, evs |-> << a.e >>]
+                      [] a.a = "class"  -> [pairs |-> << [n |-> "class", v |-> a.e] >>, evs |-> << a.e >>]
                       [] a.a = "spread" -> [pairs |-> << [n |-> "data-" \o a.m, v |-> a.m] >>, evs |-> << a.m >>]
                       [] a.a = "cond"   -> LET sub == DenAttrs(IF env.c[a.c] THEN a.then ELSE a.else, env)
                                            IN [pairs |-> sub.pairs, evs |-> << a.c >> \o sub.evs]
